@@ -53,6 +53,9 @@ open_("C09", "D14", "C09/empty-file-fails", [],
       "c09.blame_of_empty_tracked_file", ["blame_empty_file"], affects=[])
 fixed("C09", "D7", "^fix: blame looks AI lines up under the path", "after `git mv f.txt g.txt` without any edit every AI line of the file was reported human by `git-ai blame g.txt` (the note lookup used the current path instead of the path in the originating commit)", "c09.rename_without_edit_keeps_ai_lines")
 fixed("C08", "D6", "^fix: commit --amend applies the prompt storage mode", "with prompt_storage default/local (or a per-repository exclusion) `git commit --amend` after an AI edit wrote the full inline transcript into refs/notes/ai, and with `notes` it wrote planted secrets unmasked (rewrite_authorship_after_commit_amend bypassed the storage-mode filter of post_commit)", "c08.amend_in_default_storage_mode")
+open_("C12", "D15", "C05/base_commit_sha", ["C03/unsound-note@f.txt:6", "C03/unsound-note@f.txt:7", "C12/lost@f.txt:8", "C12/lost@f.txt:9"],
+      "configuration: notes.rewriteRef=refs/notes/* with notes.rewrite.rebase=true; history: feature commit appends 2 AI lines to f.txt, upstream inserts 2 lines at the top, `git rebase main` => git itself copies the old note verbatim to the rewritten commit and git-ai then skips that commit ('already has a note'): base_commit_sha names the old commit, lines 6-7 (a person's) are listed as AI and the AI lines 8-9 are human",
+      "c12.notes_rewrite_ref_copies_note_verbatim", ["setting:rewriteref"], affects=[])
 # ---------------------------------------------------------------- C02
 open_("C02", "D20", "C03/unsound-note@f.txt:12", [],
       "history: feature branch = [person replaces 2 lines of f.txt by 1; AI session S1 modifies line 5 of f.txt]; upstream inserts 2 AI lines after line 1 and then 5 human lines after line 5 of f.txt; `git rebase main` (no conflict) => the rewritten AI commit's note lists line 12 (text written by a person) as S1: the full rebase replay mis-places attributions when upstream changed the same file",
